@@ -1,2 +1,270 @@
-(* Props/C06.v — under construction *)
-From SV Require Import Base.Prelude.
+(* Props/C06.v — property C06: contraction commutes with fusing, and all
+   contraction strategies agree.  Statements only; proofs live in
+   Proofs/FusedProofs.v (on top of Proofs/Tdot.v for C02 and Proofs/FuseProofs.v
+   for C05).  The fused strategy is `Model/Fused.v` tdot_fused2: align the
+   operands' sectors, fuse both operands into matrices, blockwise product of the
+   fused pair, unfuse exactly the legs fused here.
+
+   Proved here, for every symmetry G with GroupLaws G (and OrderLaws G where the
+   sorted sub-sector order is used), every ring, all ranks, all tables:
+
+   1. ALIGNMENT ("operands whose present sectors differ").  Dropping the blocks
+      whose contracted sub-sector the partner lacks (drop_misaligned) does not
+      change the list of block pairs of the blockwise contraction, hence not its
+      accumulated blocks, charge or pruned index tables: full record equality.
+      Alignment is idempotent, so BOTH strategies factor through the aligned pair.
+   2. SAME LAYOUT.  After alignment both operands see the same set of contracted
+      sub-sectors; the sorted (sub-sector, fused charge, size) lists of the two
+      fused contracted legs coincide, so the two fused legs have the same chargemap
+      and the same extents (same sub-sectors, same order, same sizes under the
+      same fused charge), the same sub-sector ranges, and opposite directions.
+      The fused CHARGES are equal (not inverse): each side signs its sub-charges
+      relative to the direction of its own first contracted leg, and those first
+      legs are mutually opposite.  Consequently the two fused operands handed to
+      the matrix product (one leg per group) are again a contractible pair.
+   3. FUSED vs BLOCKWISE.  Same total charge always; when an aligned operand has
+      no block left the two strategies return the same record (no blocks).
+   4. MODES.  `auto` is blockwise when no axis is contracted and fused otherwise.
+
+   NOT proved (see C06_fused_eq_blockwise_full at the end): the value-level
+   agreement of the two strategies when blocks remain.  That needs the value
+   semantics of fuse_core for TWO groups at once ([free axes; contracted axes]),
+   which C05 proves for one group only.  Full record equality is false in
+   general: with two or more free legs on both sides the fused strategy stores
+   additional all-zero blocks (Proofs/FusedProofs.v, ExC06.extra_zero_blocks). *)
+From SV Require Import Base.Prelude Base.Sym Base.Tensor Model.Sectors Model.Array Model.Wf Model.Fused
+  Model.SymInst Proofs.SymLaws Proofs.Tdot Proofs.OrderProofs Proofs.FuseProofs Proofs.FusedProofs.
+Local Open Scope nat_scope.
+
+(* ---- 1: alignment ---- *)
+(* al_a / al_b are the two components of drop_misaligned *)
+Theorem C06_aligned_pair :
+  forall (G : Symmetry) (R : Ring) (a b : aarray G R) (aa ab : list nat),
+  drop_misaligned G R a b aa ab = (al_a G R a b aa ab, al_b G R a b aa ab).
+Proof. exact drop_misaligned_pair. Qed.
+
+Theorem C06_drop_misaligned_pairs :
+  forall (G : Symmetry) (R : Ring), (forall x y : C G, ceqb G x y = true <-> x = y) ->
+  forall (a b : aarray G R) (la aa ab rb : list nat),
+  tdot_pairs G R (al_a G R a b aa ab) (al_b G R a b aa ab) la aa ab rb = tdot_pairs G R a b la aa ab rb.
+Proof. exact drop_misaligned_pairs. Qed.
+
+Theorem C06_drop_misaligned_blockwise :
+  forall (G : Symmetry) (R : Ring), (forall x y : C G, ceqb G x y = true <-> x = y) ->
+  forall (a b : aarray G R) (la aa ab rb : list nat),
+  la = rest_axes (ndim G R a) aa -> rb = rest_axes (ndim G R b) ab ->
+  tdot_blockwise G R (al_a G R a b aa ab) (al_b G R a b aa ab) la aa ab rb = tdot_blockwise G R a b la aa ab rb.
+Proof. exact drop_misaligned_blockwise. Qed.
+
+Theorem C06_drop_misaligned_idempotent :
+  forall (G : Symmetry) (R : Ring), GroupLaws G ->
+  forall (a b : aarray G R) (aa ab : list nat),
+  drop_misaligned G R (al_a G R a b aa ab) (al_b G R a b aa ab) aa ab = (al_a G R a b aa ab, al_b G R a b aa ab).
+Proof. exact drop_misaligned_idem. Qed.
+
+Theorem C06_strategies_factor_through_aligned :
+  forall (G : Symmetry) (R : Ring), GroupLaws G ->
+  forall (a b : aarray G R) (la aa ab rb : list nat),
+  la = rest_axes (ndim G R a) aa -> rb = rest_axes (ndim G R b) ab ->
+  tdot_fused2 G R a b la aa ab rb = tdot_fused2 G R (al_a G R a b aa ab) (al_b G R a b aa ab) la aa ab rb /\
+  tdot_blockwise G R a b la aa ab rb = tdot_blockwise G R (al_a G R a b aa ab) (al_b G R a b aa ab) la aa ab rb.
+Proof. exact strategies_factor_through_aligned. Qed.
+
+(* ---- 2: both operands build the same fused contracted leg ---- *)
+Theorem C06_aligned_same_subsectors :
+  forall (G : Symmetry) (R : Ring), GroupLaws G ->
+  forall (a b : aarray G R) (aa ab : list nat) (s : list (C G)),
+  In s (map (fun k => take_axes (ident G) k aa) (sectors G R (al_a G R a b aa ab))) <->
+  In s (map (fun k => take_axes (ident G) k ab) (sectors G R (al_b G R a b aa ab))).
+Proof. exact aligned_same_subsectors. Qed.
+
+Theorem C06_aligned_subsectors_are_common :
+  forall (G : Symmetry) (R : Ring), GroupLaws G ->
+  forall (a b : aarray G R) (aa ab : list nat) (s : list (C G)),
+  In s (map (fun k => take_axes (ident G) k aa) (sectors G R (al_a G R a b aa ab))) <->
+  In s (map (fun k => take_axes (ident G) k aa) (sectors G R a)) /\
+  In s (map (fun k => take_axes (ident G) k ab) (sectors G R b)).
+Proof. exact con_subs_al_a. Qed.
+
+Theorem C06_aligned_has_partner :
+  forall (G : Symmetry) (R : Ring), GroupLaws G ->
+  forall (a b : aarray G R) (aa ab : list nat) (sa : list (C G) * tensor R),
+  In sa (blocks G R (al_a G R a b aa ab)) ->
+  exists sb, In sb (blocks G R (al_b G R a b aa ab)) /\
+             take_axes (ident G) (fst sa) aa = take_axes (ident G) (fst sb) ab.
+Proof. exact aligned_has_partner. Qed.
+
+(* table level, any two operands: same sub-sector sets, same relative directions and
+   same sizes on the charges that occur give the same sorted sub-sector list *)
+Theorem C06_subinfos_agree :
+  forall G : Symmetry, GroupLaws G -> OrderLaws G ->
+  forall (ixa ixb : list (index G)) (secsA secsB : list (list (C G))) (aa ab : list nat),
+  length aa = length ab ->
+  (forall ss, In ss (map (fun s => take_axes (ident G) s aa) secsA) <->
+              In ss (map (fun s => take_axes (ident G) s ab) secsB)) ->
+  (forall k, k < length aa ->
+     Bool.eqb (idual G (leg G ixa aa 0)) (idual G (leg G ixa aa k)) =
+     Bool.eqb (idual G (leg G ixb ab 0)) (idual G (leg G ixb ab k))) ->
+  (forall k ss, k < length aa -> In ss (map (fun s => take_axes (ident G) s aa) secsA) ->
+     size_of G (leg G ixa aa k) (nth k ss (ident G)) = size_of G (leg G ixb ab k) (nth k ss (ident G))) ->
+  group_subinfos G ixa secsA aa = group_subinfos G ixb secsB ab.
+Proof. exact subinfos_agree. Qed.
+
+Theorem C06_fused_tables_agree :
+  forall G : Symmetry, GroupLaws G -> OrderLaws G ->
+  forall (ixa ixb : list (index G)) (secsA secsB : list (list (C G))) (aa ab : list nat),
+  length aa = length ab ->
+  (forall ss, In ss (map (fun s => take_axes (ident G) s aa) secsA) <->
+              In ss (map (fun s => take_axes (ident G) s ab) secsB)) ->
+  (forall k, k < length aa ->
+     Bool.eqb (idual G (leg G ixa aa 0)) (idual G (leg G ixa aa k)) =
+     Bool.eqb (idual G (leg G ixb ab 0)) (idual G (leg G ixb ab k))) ->
+  (forall k ss, k < length aa -> In ss (map (fun s => take_axes (ident G) s aa) secsA) ->
+     size_of G (leg G ixa aa k) (nth k ss (ident G)) = size_of G (leg G ixb ab k) (nth k ss (ident G))) ->
+  is_singlet aa = false ->
+  let fa := fused_index G ixa secsA aa in
+  let fb := fused_index G ixb secsB ab in
+  chargemap G fa = chargemap G fb /\
+  (exists ext, isub G fa = Some (map (fun ax => nth ax ixa (dflt_index G)) aa, ext) /\
+               isub G fb = Some (map (fun ax => nth ax ixb (dflt_index G)) ab, ext)) /\
+  idual G fa = idual G (leg G ixa aa 0) /\ idual G fb = idual G (leg G ixb ab 0) /\
+  (forall c, size_of G fa c = size_of G fb c) /\
+  (forall c ss, sub_range G fa c ss = sub_range G fb c ss).
+Proof. exact fused_tables_agree. Qed.
+
+(* the operands of a contraction: contracted legs with the same table and opposite
+   directions (legs_match); sectors may differ arbitrarily *)
+Theorem C06_aligned_fused_tables :
+  forall (G : Symmetry) (R : Ring), GroupLaws G -> OrderLaws G ->
+  forall (a b : aarray G R) (aa ab : list nat),
+  legs_match G R a b aa ab -> 2 <= length aa ->
+  let a1 := al_a G R a b aa ab in
+  let b1 := al_b G R a b aa ab in
+  let fa := fused_index G (indices G R a1) (sectors G R a1) aa in
+  let fb := fused_index G (indices G R b1) (sectors G R b1) ab in
+  chargemap G fa = chargemap G fb /\
+  (exists ext, isub G fa = Some (map (fun ax => nth ax (indices G R a1) (dflt_index G)) aa, ext) /\
+               isub G fb = Some (map (fun ax => nth ax (indices G R b1) (dflt_index G)) ab, ext)) /\
+  idual G fa = negb (idual G fb) /\
+  idual G fa = idual G (leg G (indices G R a) aa 0) /\
+  (forall c, size_of G fa c = size_of G fb c) /\
+  (forall c ss, sub_range G fa c ss = sub_range G fb c ss) /\
+  (forall sa sb, In sa (sectors G R a1) -> take_axes (ident G) sa aa = take_axes (ident G) sb ab ->
+     group_charge G (indices G R a1) sa aa = group_charge G (indices G R b1) sb ab /\
+     group_size G (indices G R a1) sa aa = group_size G (indices G R b1) sb ab).
+Proof. exact aligned_fused_tables. Qed.
+
+(* the fused operands handed to the matrix product: one leg per group, and their
+   contracted legs match again (same chargemap, opposite directions) *)
+Theorem C06_fuse_all_axes_indices :
+  forall (G : Symmetry) (R : Ring) (x : aarray G R) (groups : list (list nat)),
+  (forall ax, ax < ndim G R x -> In ax (concat groups)) ->
+  Forall (fun ax => ax < ndim G R x) (concat groups) ->
+  filter (fun g => negb (is_nil g)) groups <> [] ->
+  indices G R (a_fuse_noexpand G R x groups) =
+  map (fused_index G (indices G R x) (sectors G R x)) (filter (fun g => negb (is_nil g)) groups).
+Proof. exact fuse_all_axes_indices. Qed.
+
+Theorem C06_fused_pair_legs_match :
+  forall (G : Symmetry) (R : Ring), GroupLaws G -> OrderLaws G ->
+  forall (a b : aarray G R) (la aa ab rb : list nat),
+  legs_match G R a b aa ab -> 2 <= length aa ->
+  la = rest_axes (ndim G R a) aa -> rb = rest_axes (ndim G R b) ab ->
+  let af := a_fuse_noexpand G R (al_a G R a b aa ab) [la; aa] in
+  let bf := a_fuse_noexpand G R (al_b G R a b aa ab) [ab; rb] in
+  legs_match G R af bf (if is_nil la then [0] else [1]) [0] /\
+  ndim G R af = (if is_nil la then 1 else 2) /\ ndim G R bf = (if is_nil rb then 1 else 2).
+Proof. exact fused_pair_legs_match. Qed.
+
+(* ---- 3: fused against blockwise ---- *)
+Theorem C06_fused_charge :
+  forall (G : Symmetry) (R : Ring) (a b : aarray G R) (la aa ab rb : list nat),
+  charge G R (tdot_fused2 G R a b la aa ab rb) = charge G R (tdot_blockwise G R a b la aa ab rb).
+Proof. exact fused_charge. Qed.
+
+Theorem C06_fused_eq_blockwise_empty_partial :
+  forall (G : Symmetry) (R : Ring), GroupLaws G ->
+  forall (a b : aarray G R) (la aa ab rb : list nat),
+  la = rest_axes (ndim G R a) aa -> rb = rest_axes (ndim G R b) ab ->
+  is_nil (blocks G R (al_a G R a b aa ab)) || is_nil (blocks G R (al_b G R a b aa ab)) = true ->
+  tdot_fused2 G R a b la aa ab rb = tdot_blockwise G R a b la aa ab rb /\
+  blocks G R (tdot_blockwise G R a b la aa ab rb) = [].
+Proof. exact fused_eq_blockwise_empty. Qed.
+
+(* ---- 4: modes ---- *)
+Theorem C06_tensordot_modes :
+  forall (G : Symmetry) (R : Ring) (a b : aarray G R) (axes : nat + (list Z * list Z)) (aa ab : list nat),
+  parse_axes (ndim G R a) (ndim G R b) axes = Some (aa, ab) ->
+  let la := rest_axes (ndim G R a) aa in
+  let rb := rest_axes (ndim G R b) ab in
+  a_tensordot2 G R a b axes MBlockwise = Some (tdot_blockwise G R a b la aa ab rb) /\
+  a_tensordot2 G R a b axes MFused = Some (tdot_fused2 G R a b la aa ab rb) /\
+  a_tensordot2 G R a b axes MAuto =
+    (if is_nil aa then a_tensordot2 G R a b axes MBlockwise else a_tensordot2 G R a b axes MFused).
+Proof. exact tensordot2_modes. Qed.
+
+Theorem C06_tensordot_bad_axes :
+  forall (G : Symmetry) (R : Ring) (a b : aarray G R) (axes : nat + (list Z * list Z)) (m : tmode),
+  parse_axes (ndim G R a) (ndim G R b) axes = None -> a_tensordot2 G R a b axes m = None.
+Proof. exact tensordot2_none. Qed.
+
+(* ---- full statement, NOT proved ----
+   Missing relative to the theorems above: for operands that keep blocks after the
+   alignment, that the fused strategy returns the same values as the blockwise one.
+   By C06_strategies_factor_through_aligned it suffices to show it for the aligned
+   pair, whose fused contracted legs have identical layouts by
+   C06_aligned_fused_tables.  What is still needed: (a) drop_misaligned preserves
+   wf_array; (b) the layout / value semantics of fuse_core for the two groups
+   [free axes; contracted axes] at once (C05 covers one group); (c) the product of
+   the fused matrices summed over each fused charge's range = the sum over its
+   sub-sectors of the original block products; (d) unfuse of the product's free
+   legs (C05 round trip).  The statement compares values, rank, charge and index
+   tables; the stored sector SETS differ in general (extra all-zero blocks in the
+   fused result, ExC06.extra_zero_blocks). *)
+Definition C06_fused_eq_blockwise_full : Prop :=
+  forall (G : Symmetry) (R : Ring), GroupLaws G -> OrderLaws G -> SumLaws R ->
+  forall (a b : aarray G R) (la aa ab rb : list nat),
+  wf_array G R a = true -> wf_array G R b = true ->
+  axes_ok (ndim G R a) aa = true -> axes_ok (ndim G R b) ab = true ->
+  legs_match G R a b aa ab ->
+  la = rest_axes (ndim G R a) aa -> rb = rest_axes (ndim G R b) ab ->
+  let f := tdot_fused2 G R a b la aa ab rb in
+  let w := tdot_blockwise G R a b la aa ab rb in
+  charge G R f = charge G R w /\
+  indices G R f = indices G R w /\
+  forall cs, sem G R f cs = sem G R w cs.
+
+Definition C06_all_modes_agree_full : Prop :=
+  forall (G : Symmetry) (R : Ring), GroupLaws G -> OrderLaws G -> SumLaws R ->
+  forall (a b : aarray G R) (axes : nat + (list Z * list Z)) (aa ab : list nat) (m1 m2 : tmode),
+  parse_axes (ndim G R a) (ndim G R b) axes = Some (aa, ab) ->
+  wf_array G R a = true -> wf_array G R b = true ->
+  axes_ok (ndim G R a) aa = true -> axes_ok (ndim G R b) ab = true ->
+  legs_match G R a b aa ab ->
+  exists r1 r2, a_tensordot2 G R a b axes m1 = Some r1 /\ a_tensordot2 G R a b axes m2 = Some r2 /\
+    charge G R r1 = charge G R r2 /\ indices G R r1 = indices G R r2 /\
+    forall cs, sem G R r1 cs = sem G R r2 cs.
+
+Definition C06_alignment_preserves_wf_full : Prop :=
+  forall (G : Symmetry) (R : Ring), GroupLaws G -> OrderLaws G ->
+  forall (a b : aarray G R) (aa ab : list nat),
+  wf_array G R a = true -> wf_array G R b = true ->
+  wf_array G R (al_a G R a b aa ab) = true /\ wf_array G R (al_b G R a b aa ab) = true.
+
+Print Assumptions C06_aligned_pair.
+Print Assumptions C06_drop_misaligned_pairs.
+Print Assumptions C06_drop_misaligned_blockwise.
+Print Assumptions C06_drop_misaligned_idempotent.
+Print Assumptions C06_strategies_factor_through_aligned.
+Print Assumptions C06_aligned_same_subsectors.
+Print Assumptions C06_aligned_subsectors_are_common.
+Print Assumptions C06_aligned_has_partner.
+Print Assumptions C06_subinfos_agree.
+Print Assumptions C06_fused_tables_agree.
+Print Assumptions C06_aligned_fused_tables.
+Print Assumptions C06_fuse_all_axes_indices.
+Print Assumptions C06_fused_pair_legs_match.
+Print Assumptions C06_fused_charge.
+Print Assumptions C06_fused_eq_blockwise_empty_partial.
+Print Assumptions C06_tensordot_modes.
+Print Assumptions C06_tensordot_bad_axes.
